@@ -101,6 +101,8 @@ func eval(c rcase) []viol {
 		return evalDecode(c.Carrier, unquotePairs(c.Pairs), bin, c.EmptyValue)
 	case "roundtrip":
 		return evalRoundTrip(c.Carrier, *c.P)
+	case "badid":
+		return evalBadID(c.Carrier, *c.P)
 	case "compress":
 		return evalCompress(*c.P)
 	case "dial":
@@ -198,6 +200,27 @@ func keysDiffering(a, b []pair) string {
 
 // evalRoundTrip: the library marshals a valid set; the marshalled form must be the documented one
 // (reference encoder) and must be read back unchanged, by the library's reader.
+// evalBadID: ids that are not valid UTF-8 on the writer side. The writer may refuse them; what it must not do is
+// send a different id without saying so.
+func evalBadID(carrier string, p pset) (vs []viol) {
+	m := implMarshal(carrier, p)
+	if m.Pan != "" {
+		return []viol{{"C17.no-panic:" + m.Pan, fmt.Sprintf("%s marshal of %v panicked: %s", carrier, p, m.Msg)}}
+	}
+	if m.Err != nil || m.Class != "" {
+		return nil // refused (or a form the reader rejects as malformed)
+	}
+	for _, kv := range m.Pairs {
+		switch {
+		case kv[0] == "tid" && p.TID != "" && kv[1] != p.TID:
+			vs = append(vs, viol{"C17.wire-form:id-rewritten(tid)@" + carrier, fmt.Sprintf("marshal of transport id %q (invalid UTF-8) silently sends %q", p.TID, kv[1])})
+		case kv[0] == "tgid" && p.TGID != "" && kv[1] != p.TGID:
+			vs = append(vs, viol{"C17.wire-form:id-rewritten(tgid)@" + carrier, fmt.Sprintf("marshal of transport group id %q (invalid UTF-8) silently sends %q", p.TGID, kv[1])})
+		}
+	}
+	return vs
+}
+
 func evalRoundTrip(carrier string, p pset) (vs []viol) {
 	m := implMarshal(carrier, p)
 	if m.Pan != "" {
@@ -683,6 +706,15 @@ func main() {
 			for _, p := range []pset{{TID: specials[i]}, {TGID: specials[i], TGCount: 3, TGIdx: 2}, {TID: specials[i], Reconnect: true, Enc: encProto, Comp: compPM, Level: ip(9), Bits: ip(15)}} {
 				p := p
 				r.run("roundtrip-special-strings", rcase{Kind: "roundtrip", Carrier: car, P: &p})
+			}
+		}
+	})
+	// 1b'. ids that are not valid UTF-8 on the writer side: refused or sent as they are, never rewritten silently
+	parallel(len(badUTF8), func(i int) {
+		for _, car := range carriers {
+			for _, p := range []pset{{TID: "a" + badUTF8[i]}, {TGID: "g" + badUTF8[i], TGCount: 3, TGIdx: 2}} {
+				p := p
+				r.run("writer-invalid-utf8-ids", rcase{Kind: "badid", Carrier: car, P: &p})
 			}
 		}
 	})
